@@ -285,7 +285,24 @@ def main(ck):
     scases = [] if ck.replay else server_cases(ck, rng)
     if ck.replay and cases and cases[0].get("kind") == "server":
         scases, cases = cases, []
-    outs, rc, err = run_impl(binary, cases + mcases + scases)
+    # registration order: closure and class-instance middlewares interleaved with routes; each route is
+    # wrapped by exactly the middlewares registered before it (checked per route with check_mcase)
+    rcases = []
+    if not ck.replay:
+        shapes = [["mw", "closure"], ["mw", "class"], ["route"]]
+        for n in (2, 3, 4):
+            for seq in itertools.product(shapes, repeat=n):
+                if sum(1 for x in seq if x[0] == "route") >= 1 and sum(1 for x in seq if x[0] == "mw") >= 1:
+                    if n < 4 or rng.random() < 0.5:
+                        rcases.append({"kind": "mwreg", "items": [list(x) + ([rng.choice([-1, 0, 0, 5])] if x[0] == "mw" else []) for x in seq]})
+        for _ in range(60 if ck.tier == "quick" else 800):
+            n = rng.randint(3, 8)
+            rcases.append({"kind": "mwreg", "items": [(lambda x: list(x) + ([rng.choice([-1, 0, 0, 1, 5])] if x[0] == "mw" else []))(rng.choice(shapes)) for _ in range(n)]})
+    outs, rc, err = run_impl(binary, cases + mcases + scases + rcases)
+    o_reg = outs[len(cases) + len(mcases) + len(scases):]
+    outs = outs[:len(cases) + len(mcases) + len(scases)]
+    if len(o_reg) != len(rcases):
+        ck.broken.append("harness-run:mwreg")
     o_srv = outs[len(cases) + len(mcases):]
     outs = outs[:len(cases) + len(mcases)]
     if len(outs) + len(o_srv) != len(cases) + len(mcases) + len(scases):
@@ -315,6 +332,36 @@ def main(ck):
         else:
             ck.broken.append("correspondence:C13.ops")
             ck.violation(key, {"case": c, "impl_out": o, "clause": [clause_names[x] for x in cls]})
+    rterms, ridx = [], []
+    for i, (c, o) in enumerate(zip(rcases, o_reg)):
+        if o.get("err"):
+            ck.violation("impl-error:mwreg", {"case": c, "impl_out": o, "clause": "implementation raised"})
+            continue
+        prios = []
+        r = 0
+        bodies = o.get("bodies") or []
+        for it in c["items"]:
+            if it[0] == "mw":
+                prios.append(it[2])
+            else:
+                body = bodies[r] if r < len(bodies) else ""
+                tr = []
+                for part in body.split(";"):
+                    if part == "F":
+                        tr.append((2, 0))
+                    elif part[:1] == "E":
+                        tr.append((0, int(part[1:])))
+                    elif part[:1] == "X":
+                        tr.append((1, int(part[1:])))
+                es = coq_list("(%s, %d%%nat)" % (coq_z(p), k) for k, p in enumerate(prios))
+                rterms.append("(%s, %s)" % (es, coq_list("(%d%%nat, %d%%nat)" % ab for ab in tr)))
+                ridx.append((i, r))
+                r += 1
+    rbad = ck.eval_cases("rcases", HEADER, rterms, "check_mcase", shard=1500) if rterms else {}
+    for j in sorted(rbad):
+        i, r = ridx[j]
+        ck.violation("mw:registration-order", {"case": rcases[i], "route": r, "impl_out": o_reg[i],
+                                               "clause": "a route is wrapped by exactly the middlewares registered before it, in stable priority order"})
     sterms, sidx = [], []
     for i, (c, o) in enumerate(zip(scases, o_srv)):
         if o.get("err"):
@@ -369,7 +416,8 @@ def main(ck):
                               "with_middleware": sum(1 for c in scases if c["mws"])}
     ck.cov["exhaustive_ops_len"] = 3 if ck.tier == "quick" else 4
     ck.samples += scases[3:4]
-    ck.finish(level="proof", evaluations=len(cases) + len(mcases) + len(scases),
+    ck.cov["registration_order_cases"] = len(rcases)
+    ck.finish(level="proof", evaluations=len(cases) + len(mcases) + len(scases) + len(rcases),
               distinct_nontrivial=nontriv + mdistinct,
               rule="op sequences: all sequences up to the stated length over a 15-op pool (go-level), every single op and ordered pair at script level, seeded random sequences of length 1..12; middleware stacks: all sub-multisets orderings of {-1,0,0,1,5} plus seeded random; non-trivial = distinct sequence with a committing op and at least one other op (ops) / more than one entry (middleware)",
-              traces=len(terms) + len(mterms) + len(sterms))
+              traces=len(terms) + len(mterms) + len(sterms) + len(rterms))
